@@ -994,3 +994,61 @@ package ion
 //@ func (Timestamp).String
 //@ trusted assumed pure (time.Format-based formatting is outside the engine's subset)
 //@ modifies nothing
+
+// Internal helpers of the writers: for the sticky-error proofs of their callers it is
+// enough that they are called by contract (no frame claim, no postcondition: the caller
+// assigns whatever they return to w.err).
+
+//@ func (*textWriter).beginValue
+//@ modifies *
+
+//@ func (*textWriter).endValue
+//@ modifies *
+
+//@ func (*textWriter).begin
+//@ modifies *
+
+//@ func (*textWriter).end
+//@ modifies *
+
+//@ func (*binaryWriter).beginValue
+//@ modifies *
+
+//@ func (*binaryWriter).endValue
+//@ modifies *
+
+//@ func (*binaryWriter).begin
+//@ modifies *
+
+//@ func (*binaryWriter).end
+//@ modifies *
+
+//@ func (*binaryWriter).emit
+//@ modifies *
+
+//@ func (*binaryWriter).writeLST
+//@ modifies *
+
+//@ func (*binaryWriter).resolve
+//@ modifies *
+
+//@ func (*binaryWriter).resolveFromSymbolTable
+//@ modifies *
+
+//@ func writeEscapedString
+//@ modifies *
+
+//@ func writeEscapedChar
+//@ modifies *
+
+//@ func writeRawString
+//@ modifies *
+
+//@ func writeRawChar
+//@ modifies *
+
+//@ func writeSymbol
+//@ modifies *
+
+//@ func writeSymbolFromString
+//@ modifies *
